@@ -34,7 +34,7 @@ package rtpbuffer
 //@ pred bufinv(r *RTPBuffer) := bufwf(r)
 //@     && (!r.started ==> (forall k uint16 :: k < r.size ==> r.packets[k] == nil))
 //@     && (r.started ==> (forall k uint16 :: k < r.size && r.packets[k] != nil ==>
-//@            r.packets[k].sequenceNumber % r.size == k && r.highestAdded - r.packets[k].sequenceNumber < r.size && r.packets[k].count >= 1))
+//@            r.packets[k].sequenceNumber % r.size == k && r.highestAdded - r.packets[k].sequenceNumber < r.size && r.packets[k].count >= 1 && allocated(r.packets[k])))
 //@
 //@ # fewer than 2^62 outstanding references to any buffered packet (an assumption on histories, not an invariant)
 //@ pred refsBounded(r *RTPBuffer) := forall k uint16 :: k < r.size && r.packets[k] != nil ==> r.packets[k].count < (1 << 62)
@@ -55,14 +55,18 @@ package rtpbuffer
 //@   requires inv: bufinv(r)
 //@   requires pkt: packet != nil && packet.count >= 1
 //@   requires not_buffered_yet: forall k uint16 :: k < r.size ==> r.packets[k] != packet
-//@   modifies *
+//@   modifies r.packets[*], r.highestAdded, r.started, all RetainablePacket.*, all rtp.Header.*, all []byte.*
 //@   ensures inv: bufinv(r)
 //@   ensures started: r.started && r.size == old(r.size)
 //@   ensures highest: r.highestAdded == ite(!old(r.started) || packet.sequenceNumber - old(r.highestAdded) < 32768, packet.sequenceNumber, old(r.highestAdded))
 //@   ensures view_first: !old(r.started) ==> forall x uint16 :: sent(r, x) == ite(x == packet.sequenceNumber, packet, nil)
 //@   ensures view_duplicate_of_highest: old(r.started) && packet.sequenceNumber == old(r.highestAdded) ==> forall x uint16 :: sent(r, x) == old(sent(r, x))
-//@   ensures view_newer: old(r.started) && packet.sequenceNumber != old(r.highestAdded) && packet.sequenceNumber - old(r.highestAdded) < 32768 ==>
-//@        forall x uint16 :: sent(r, x) == ite(x == packet.sequenceNumber, packet, ite(packet.sequenceNumber - x < r.size, old(sent(r, x)), nil))
+//@   ensures view_newer_self: old(r.started) && packet.sequenceNumber != old(r.highestAdded) && packet.sequenceNumber - old(r.highestAdded) < 32768 ==>
+//@        sent(r, packet.sequenceNumber) == packet
+//@   ensures view_newer_kept: old(r.started) && packet.sequenceNumber != old(r.highestAdded) && packet.sequenceNumber - old(r.highestAdded) < 32768 ==>
+//@        forall x uint16 :: x != packet.sequenceNumber && packet.sequenceNumber - x < r.size ==> sent(r, x) == old(sent(r, x))
+//@   ensures view_newer_dropped: old(r.started) && packet.sequenceNumber != old(r.highestAdded) && packet.sequenceNumber - old(r.highestAdded) < 32768 ==>
+//@        forall x uint16 :: packet.sequenceNumber - x >= r.size ==> sent(r, x) == nil
 //@   ensures view_late_in_window: old(r.started) && packet.sequenceNumber - old(r.highestAdded) >= 32768 && old(r.highestAdded) - packet.sequenceNumber < r.size ==>
 //@        forall x uint16 :: sent(r, x) == ite(x == packet.sequenceNumber, packet, old(sent(r, x)))
 //@   ensures view_too_old: old(r.started) && packet.sequenceNumber - old(r.highestAdded) >= 32768 && old(r.highestAdded) - packet.sequenceNumber >= r.size ==>
@@ -120,3 +124,41 @@ package rtpbuffer
 //@   ensures rtx_len_pad: result0 != nil && rtxSsrc != 0 && rtxPayloadType != 0 && header.Padding && header.PaddingSize == 0 && len(payload) > 0 ==>
 //@        len(result0.payload) == len(payload) + 2 - int(old(payload[len(payload) - 1])) && int(old(payload[len(payload) - 1])) <= len(payload)
 //@   ensures rtx_payload: result0 != nil && rtxSsrc != 0 && rtxPayloadType != 0 ==> forall k int :: 0 <= k && k < len(payload) && k + 2 < len(result0.payload) ==> result0.payload[k + 2] == old(payload[k])
+//@
+//@ func NewRTPBuffer
+//@   modifies nothing
+//@   ensures accepts: (result0 != nil) <==> pow2(size)
+//@   ensures err: (result0 == nil) <==> (result1 != nil)
+//@   ensures fresh: result0 != nil ==> fresh(result0)
+//@   ensures inv: result0 != nil ==> bufinv(result0) && !result0.started && result0.size == size
+//@   loop 1 invariant range: 0 <= rangeint_iter && rangeint_iter < 16 && fresh(allowedSizes)
+//@   loop 1 invariant tried: forall k uint16 :: k < 16 && int(k) < rangeint_iter ==> size != uint16(1) << k
+//@   loop 1 decreases 16 - rangeint_iter
+//@
+//@ func (*RTPBuffer).Clear
+//@   requires inv: bufinv(r)
+//@   modifies r.packets[*], r.started, all RetainablePacket.*, all rtp.Header.*, all []byte.*
+//@   ensures inv: bufinv(r)
+//@   ensures emptied: !r.started && (forall x uint16 :: sent(r, x) == nil)
+//@   ensures released_once: forall k uint16 :: k < r.size && old(r.packets[k]) != nil ==> old(r.packets[k]).count == old(r.packets[k].count) - 1
+//@   loop 1 opt noautoframe
+//@   loop 1 invariant range: -1 <= rangeindex && rangeindex < len(r.packets)
+//@   loop 1 invariant shape: r.size == old(r.size) && r.packets == old(r.packets) && r.started == old(r.started) && r.highestAdded == old(r.highestAdded)
+//@   loop 1 invariant cleared: forall k uint16 :: k < r.size && int(k) <= rangeindex ==> r.packets[k] == nil
+//@   loop 1 invariant kept: forall k uint16 :: k < r.size && int(k) > rangeindex ==> r.packets[k] == old(r.packets[k])
+//@   loop 1 invariant counts: forall k uint16 :: k < r.size && old(r.packets[k]) != nil ==>
+//@        old(r.packets[k]).count == ite(int(k) <= rangeindex, old(r.packets[k].count) - 1, old(r.packets[k].count))
+//@   loop 1 decreases len(r.packets) - rangeindex
+//@
+//@ # what the NACK responder may assume of any packet factory (both factories in this package are verified to provide it)
+//@ iface PacketFactory.NewPacket
+//@   ensures ok_or_error: (result0 == nil) <==> (result1 != nil)
+//@   ensures fresh_packet: result0 != nil ==> fresh(result0) && result0.count == 1 && result0.sequenceNumber == header.SequenceNumber
+//@
+//@ # DisableCopy factory (the documented exception of C13): keeps the caller's header and payload
+//@ func (*PacketFactoryNoOp).NewPacket
+//@   requires hdr: header != nil
+//@   modifies nothing
+//@   ensures ok_or_error: (result0 == nil) <==> (result1 != nil)
+//@   ensures fresh_packet: result0 != nil ==> fresh(result0) && result0.count == 1 && result0.sequenceNumber == header.SequenceNumber
+//@   ensures keeps_callers_buffers: result0 != nil && result0.header == header && result0.payload == payload
